@@ -87,7 +87,10 @@ class CellVariable:
             phi_val = cell_value
         elif np.all(np.array(cell_value.shape)==mesh_struct.dims+2):
             # Values for ghost cells already included,
-            # simply fill
+            # simply fill (as floating-point numbers: an integer or boolean
+            # array would silently truncate every later assignment)
+            if not np.issubdtype(cell_value.dtype, np.floating):
+                cell_value = cell_value.astype(float)
             self._value = TrackedArray(cell_value)
         else:
             raise ValueError(f"The cell size {cell_value.shape} is not valid "\
